@@ -224,6 +224,9 @@ func judgeAuthMutant(s sink, c c17Case, class string) string {
 		s.Violation("C17/"+c.Scheme+"/"+class+"-verifies", c, "%s: auth bytes differing from the honest encoding (%s) parse and verify for the same message (re-encodes to the honest bytes: %v)", c.Scheme, c.Mutation, bytes.Equal(a.Bytes(), mustHex(c.Orig)))
 	})
 	s.Count("mutants_"+outcome, 1)
+	// every parse entry point: rejected, or the parsed auth is usable (c17_field_test.go)
+	// (single-bit flips: verified above through AuthParser.Unmarshal, which dispatches to the same parser)
+	judgeMutantUsable(s, c, class, !strings.HasPrefix(class, "bitflip-"))
 	return outcome
 }
 
@@ -273,6 +276,7 @@ func judgeValidAuth(s sink, scheme string, f chain.AuthFactory, a chain.Auth, ms
 func runC17Shard(s sink, rng *rand.Rand, scheme string, nAuth int, last *os.File) {
 	kind := map[string]int{"ed25519": 0, "secp256r1": 1, "bls": 2}[scheme]
 	seenAddr := map[codec.Address]string{}
+	var prevOrig []byte // the previous honest auth of this shard: source of a foreign valid key / signature
 	// BLS: further honest auths that get the (cheap) subgroup re-encodings only
 	total := nAuth
 	if scheme == "bls" {
@@ -324,10 +328,18 @@ func runC17Shard(s sink, rng *rand.Rand, scheme string, nAuth int, last *os.File
 		seenAddr[a.Actor()] = pkHex
 
 		orig := a.Bytes()
+		// positive control of the usability oracle: the honest encoding through every entry point
+		judgeMutantUsable(s, c17Case{Scheme: scheme, Msg: hx(msg), Orig: hx(orig), Mutant: hx(orig), Mutation: "none"}, "honest", true)
 		var muts []c17Mutant
 		if i < nAuth {
 			muts = mutantsOf(scheme, orig, rng, i%2 == 0)
 		}
+		// one field damaged, the other left valid (BLS: all public-key bits where mutantsOf only sampled them)
+		foreign := prevOrig
+		prevOrig = orig
+		fd := fieldDamageMutants(s, scheme, orig, foreign, rng, scheme == "bls" && i < nAuth && i%2 != 0) // ed25519 / secp256r1 keys are not validated at parse
+		s.Count("field_damage_mutants/"+scheme, len(fd))
+		muts = append(muts, fd...)
 		if scheme == "bls" {
 			muts = append(muts, blsSubgroupMutants(s, rng, orig, msg, 3)...)
 		}
@@ -349,6 +361,9 @@ func runC17Shard(s sink, rng *rand.Rand, scheme string, nAuth int, last *os.File
 						s.Count("tx_mutants_parse-rejected", 1)
 						return
 					}
+					// the auth of the parsed transaction must be usable as well
+					judgeParsedAuth(s, c, m.class, "chain.UnmarshalTx", mt.Auth, m.b, false) // VerifyAuth follows
+					c17Call(s, c, "chain.UnmarshalTx", "Transaction.GetSponsor()", func() { _ = mt.GetSponsor() })
 					if err := mt.VerifyAuth(context.Background()); err != nil {
 						s.Count("tx_mutants_verify-rejected", 1)
 						return
@@ -401,7 +416,7 @@ func TestC17Child(t *testing.T) {
 
 func TestC17(t *testing.T) {
 	r := kit.Start(t, "C17", "exploration")
-	r.Rule("for honestly generated keys and signatures of ed25519, secp256r1 and BLS (messages: unsigned bytes of real transfer transactions and arbitrary byte strings incl. empty), every alternative auth encoding of a catalog is parsed and verified for the same message: all single-bit flips of the auth bytes (every bit for every second auth, a 1/8 sample otherwise), trailing/leading/truncated bytes, wrong type ids; ed25519: s+k*l for every k that fits, sign bits of R and A, y+p re-encodings where representable; secp256r1: (r,n-s), r+n/s+n where < 2^256, every public-key prefix; BLS: compression/infinity/sign flag of key and signature (sign flip = negated signature), x+p re-encodings of each field element where representable. Non-bit-flip mutants are also re-embedded into the transaction (parse + VerifyAuth, id must not change). BLS subgroup re-encodings (for every BLS auth above and for 6x as many further honest BLS auths): public key + T and public key - T for 3 random non-trivial cofactor-torsion points T of E(Fp) per auth (random x-coordinates until a curve point outside G1 is found, times the group order r; T != O and pk' outside G1 are confirmed; a counter records that the pairing equation holds for pk' with the honest signature when the key is not validated), signature +- T' for 3 random torsion points of E'(Fp2), key and signature both shifted, the point-at-infinity encoding c0 00..00 as public key, as signature and as both. None may verify. Plus, per honest auth: Unmarshal(Bytes()) round trip, verification after the round trip, Actor/Sponsor/factory address = type id | sha256(public key); address binding under every accessor order: on a FRESH auth object per call order (orders SSAAS, AASSA, SASA, ASAS, S, A with S = Sponsor(), A = Actor(); objects freshly produced by factory.Sign, freshly parsed by AuthParser.Unmarshal, and - through Transaction.GetSponsor() / tx.Auth.Actor() - the auth of a freshly signed transaction, of a freshly parsed transaction and of a freshly signed transaction without actions) every answer must equal type id | sha256(public key bytes). Non-trivial = mutant that parses (reaches signature verification); distinct = (scheme, mutation, outcome). Low-S boundary part (secp256r1): for 3000 / 150000 messages a key is constructed (nonce k and s chosen, d = (s*k - z)/r mod n) such that (r, s) is a valid signature with s at a chosen position: (n-1)/2 +- {0,1,2,3, 2^j for j = 2..254}, 1, 2, n-1, n-2, 2^255 +- 1, (p-1)/2 +- 1, random offsets of every magnitude, uniform s; a math/big + crypto/elliptic reference verification confirms (r, s) and (r, n-s) are valid ECDSA, then secp256r1.Verify, auth.SECP256R1.Verify and AuthParser.Unmarshal+Verify must accept exactly the form with s <= (n-1)/2, and of the two transactions carrying the two forms at most one may verify; distinct = (position of s, outcome).")
+	r.Rule("for honestly generated keys and signatures of ed25519, secp256r1 and BLS (messages: unsigned bytes of real transfer transactions and arbitrary byte strings incl. empty), every alternative auth encoding of a catalog is parsed and verified for the same message: all single-bit flips of the auth bytes (every bit for every second auth, a 1/8 sample otherwise), trailing/leading/truncated bytes, wrong type ids; ed25519: s+k*l for every k that fits, sign bits of R and A, y+p re-encodings where representable; secp256r1: (r,n-s), r+n/s+n where < 2^256, every public-key prefix; BLS: compression/infinity/sign flag of key and signature (sign flip = negated signature), x+p re-encodings of each field element where representable. Non-bit-flip mutants are also re-embedded into the transaction (parse + VerifyAuth, id must not change). BLS subgroup re-encodings (for every BLS auth above and for 6x as many further honest BLS auths): public key + T and public key - T for 3 random non-trivial cofactor-torsion points T of E(Fp) per auth (random x-coordinates until a curve point outside G1 is found, times the group order r; T != O and pk' outside G1 are confirmed; a counter records that the pairing equation holds for pk' with the honest signature when the key is not validated), signature +- T' for 3 random torsion points of E'(Fp2), key and signature both shifted, the point-at-infinity encoding c0 00..00 as public key, as signature and as both. None may verify. Plus, per honest auth: Unmarshal(Bytes()) round trip, verification after the round trip, Actor/Sponsor/factory address = type id | sha256(public key); address binding under every accessor order: on a FRESH auth object per call order (orders SSAAS, AASSA, SASA, ASAS, S, A with S = Sponsor(), A = Actor(); objects freshly produced by factory.Sign, freshly parsed by AuthParser.Unmarshal, and - through Transaction.GetSponsor() / tx.Auth.Actor() - the auth of a freshly signed transaction, of a freshly parsed transaction and of a freshly signed transaction without actions) every answer must equal type id | sha256(public key bytes). One-field damage (every honest auth of all three schemes, incl. the further BLS auths): only the public-key field or only the signature field of the honest encoding is replaced, the other field staying valid (the construction asserts that no byte outside the field changes): all-zero, all-0xff, uniformly random, the field of another honest auth (a foreign valid key / signature), byte-reversed, rotated by one byte, truncated to 0 / 1 / half / all-but-one / a random number of bytes (head or tail kept) and padded back with 00 or ff, 14 first-byte and 4 last-byte values, 6 random two-bit flips; BLS in addition: all 8 combinations of the compression/infinity/sign flags over the honest x, 8 encodings around the point at infinity (c0 00.., 40 00.., e0 00.., 80 00.., 00 00.., infinity flag with non-zero x), x = p-1 / p / p+1 / 2^381-1 with either sign flag, the x closest above the honest x that is off the curve and the closest that is on the curve outside the prime-order subgroup, a random off-curve x and a random on-curve non-subgroup x (labelled with blst), and every single-bit flip of the public key for the auths where the general catalog only samples bit flips. Every mutant of the whole catalog (and, as positive control, the honest encoding) goes through AuthParser.Unmarshal and through the scheme's own auth.UnmarshalED25519 / UnmarshalSECP256R1 / UnmarshalBLS, the non-bit-flip ones also through chain.UnmarshalTx; each entry point must reject it or return an auth that is usable: no call on it panics (key C17/parsed-auth-unusable; each of Bytes, Sponsor, Actor, Sponsor, Actor, GetTypeID, Verify, Transaction.GetSponsor is run under its own recover), Bytes() equals the input bytes, Sponsor()/Actor() equal first input byte | sha256(public-key bytes of the input), GetTypeID() equals the first byte, and Verify(msg) succeeds only for the honest encoding. Non-trivial = mutant that parses (reaches signature verification); distinct = (scheme, mutation, outcome). Low-S boundary part (secp256r1): for 3000 / 150000 messages a key is constructed (nonce k and s chosen, d = (s*k - z)/r mod n) such that (r, s) is a valid signature with s at a chosen position: (n-1)/2 +- {0,1,2,3, 2^j for j = 2..254}, 1, 2, n-1, n-2, 2^255 +- 1, (p-1)/2 +- 1, random offsets of every magnitude, uniform s; a math/big + crypto/elliptic reference verification confirms (r, s) and (r, n-s) are valid ECDSA, then secp256r1.Verify, auth.SECP256R1.Verify and AuthParser.Unmarshal+Verify must accept exactly the form with s <= (n-1)/2, and of the two transactions carrying the two forms at most one may verify; distinct = (position of s, outcome).")
 	r.Assume("adversarially chosen small-order ed25519 public keys (accepted by ZIP-215 by design) are not alternative encodings of an honest signature and are out of scope", "sha256 as the address hash is taken from the documentation of codec.CreateAddress / auth.New*Address", "of the two valid forms (r, s), (r, n-s) the accepted one is the low one, s <= (n-1)/2 (documented at secp256r1.Verify / BIP-62 low-S; it is the form Sign emits)")
 	if rf := r.Replay(); rf != nil && len(rf.Witness) > 0 {
 		var lw c17LowS
